@@ -315,6 +315,7 @@ def run_call(case, ctx):
     from cirbo.synthesis.generation import arithmetics as ar
     from cirbo.synthesis import generation as gn
     A.CUR['case'] = case
+    A.CUR['omit_defaults'] = (int(case.get('rseed', 0) or 0) >> 3) % 2 == 1
     f = case['func']
     be = case.get('big_endian', False)
     if be:
@@ -332,14 +333,14 @@ def run_call(case, ctx):
         if f.startswith('generate_'):
             a = case['args']
             if f == 'generate_sub_two_numbers':
-                _twice(lambda: ar.generate_sub_two_numbers(a[0], a[1], big_endian=be))
+                _twice(lambda: ar.generate_sub_two_numbers(a[0], a[1], **A.be_kwargs(be)))
                 nontrivial = a[0] >= 2
             elif f == 'generate_div_mod':
-                _twice(lambda: ar.generate_div_mod(a[0], big_endian=be))
+                _twice(lambda: ar.generate_div_mod(a[0], **A.be_kwargs(be)))
                 ctx.count('divmod:zero_divisor_possible')
                 nontrivial = a[0] >= 2
             elif f == 'generate_sqrt':
-                _twice(lambda: ar.generate_sqrt(a[0], big_endian=be))
+                _twice(lambda: ar.generate_sqrt(a[0], **A.be_kwargs(be)))
                 nontrivial = a[0] >= 2
             elif f == 'generate_equal':
                 if a[1] >= (1 << a[0]):
@@ -347,7 +348,7 @@ def run_call(case, ctx):
                 _twice(lambda: ar.generate_equal(a[0], a[1]))
                 nontrivial = a[0] >= 2
             elif f == 'generate_plus_one':
-                _twice(lambda: gn.generate_plus_one(a[0], a[1], big_endian=be))
+                _twice(lambda: gn.generate_plus_one(a[0], a[1], **A.be_kwargs(be)))
                 nontrivial = a[0] >= 2
             elif f == 'generate_if_then_else':
                 _twice(lambda: gn.generate_if_then_else())
@@ -425,24 +426,24 @@ def run_call(case, ctx):
                 except Exception as e:
                     ctx.count('mismatched_request_raised:' + type(e).__name__)
             if f == 'add_sub_two_numbers':
-                ar.add_sub_two_numbers(c, _F(ops[0]), _F(ops[1]), big_endian=be)
+                ar.add_sub_two_numbers(c, _F(ops[0]), _F(ops[1]), **A.be_kwargs(be))
             elif f == 'add_sub2':
-                ar.add_sub2(c, _F(ops[0]), big_endian=be)
+                ar.add_sub2(c, _F(ops[0]), **A.be_kwargs(be))
             elif f == 'add_sub3':
-                ar.add_sub3(c, _F(ops[0]), big_endian=be)
+                ar.add_sub3(c, _F(ops[0]), **A.be_kwargs(be))
             elif f == 'add_subtract_with_compare':
-                ar.add_subtract_with_compare(c, _F(ops[0]), _F(ops[1]), big_endian=be)
+                ar.add_subtract_with_compare(c, _F(ops[0]), _F(ops[1]), **A.be_kwargs(be))
             elif f == 'add_div_mod':
                 ctx.count('divmod:zero_divisor_possible')
-                ar.add_div_mod(c, _F(ops[0]), _F(ops[1]), big_endian=be)
+                ar.add_div_mod(c, _F(ops[0]), _F(ops[1]), **A.be_kwargs(be))
             elif f == 'add_sqrt':
-                ar.add_sqrt(c, _F(ops[0]), big_endian=be)
+                ar.add_sqrt(c, _F(ops[0]), **A.be_kwargs(be))
             elif f == 'add_equal':
                 if case['num'] >= (1 << len(ops[0])):
                     ctx.count('equal:does_not_fit')
                 ar.add_equal(c, _F(ops[0]), case['num'])
             elif f == 'add_plus_one':
-                gn.add_plus_one(c, ops[0], result_labels=case.get('result_labels'), big_endian=be, **opt)
+                gn.add_plus_one(c, ops[0], result_labels=case.get('result_labels'), **A.be_kwargs(be), **opt)
             elif f == 'add_if_then_else':
                 gn.add_if_then_else(c, ops[0][0], ops[0][1], ops[0][2], result_label=case.get('result_labels'), **opt)
             elif f == 'add_pairwise_if_then_else':
